@@ -328,8 +328,9 @@ func (s Traversal) BreadthFirst(ctx context.Context, plan Plan) error {
 						return nil
 					}
 				}
-			}); err != nil && !errors.Is(err, graph.ErrContextTimedOut) && !errors.Is(err, context.Canceled) {
-				// A worker encountered a fatal error, kill the traversal context
+			}); err != nil && (traversalCtx.Err() == nil || (!errors.Is(err, graph.ErrContextTimedOut) && !errors.Is(err, context.Canceled))) {
+				// A worker encountered a fatal error, kill the traversal context. Context errors are only benign
+				// once the traversal context is done; before that they are a failure of the call that returned them.
 				doneFunc()
 
 				errorCollector.Add(fmt.Errorf("reader %d failed: %w", workerID, err))
